@@ -64,6 +64,7 @@ FINDING_KEY = "F-C15-unlink: clean stop between another start's open(lock) and F
 SYSLOG_FINDING_KEY = "F-C15-syslog-closes-stderr: --syslog in background mode frees descriptor 2 after sanitize_std_fds"
 TRACE = "trace=%file,bind,listen,fcntl,close,unlink,unlinkat,openat,socket,rename,write"
 INJECT_SET = "openat,unlink,bind,listen,fcntl,close,socket"
+PGREP = shutil.which("pgrep")
 PHASE = {"up": "start-up", "down": "shutdown", "serve": "service"}
 RESTART_BOUND = 20          # seconds a fresh start may take to serve or to exit; beyond it it is a hang
 
@@ -161,15 +162,24 @@ class Dir:
         return s
 
     def procs(self):
-        """live munged processes whose command line names this directory"""
+        """live munged processes whose command line names this directory.  The candidates come from pgrep (a scan of
+        /proc in C, outside the interpreter lock: dozens of scenarios poll at once); only they are read here"""
+        cand = None
+        if PGREP:
+            try:
+                r = subprocess.run([PGREP, "-x", "munged"], capture_output=True, text=True, timeout=10)
+                if r.returncode in (0, 1):
+                    cand = [x for x in r.stdout.split() if x.isdigit()]
+            except (OSError, subprocess.SubprocessError):
+                cand = None
+        if cand is None:
+            cand = [p for p in os.listdir("/proc") if p.isdigit()]
         out = []
-        for p in os.listdir("/proc"):
-            if not p.isdigit():
-                continue
+        for p in cand:
             try:
                 cl = open("/proc/%s/cmdline" % p, "rb").read().split(b"\0")
                 st = open("/proc/%s/stat" % p).read().rsplit(")", 1)[1].split()[0]
-            except OSError:
+            except (OSError, IndexError):
                 continue
             if st == "Z" or not cl or not cl[0].endswith(b"/munged"):
                 continue
